@@ -69,6 +69,9 @@ JPrims(e) ==
             cls == e.fn IN
         << R("C12", "date_accepts_in_domain", inDom, e.r.ok, cls),
            R("C12", "date_exact", inDom /\ e.r.ok, e.r.out = PadTo(ms, 8), cls),
+           \* the same observation under C15 (second / millisecond conversions are exact, never wrapped, for every millisecond date below 2^63)
+           R("C15", "seconds_to_milliseconds_exact", inDom /\ e.r.ok, e.r.out = PadTo(ms, 8), cls),
+           R("C15", "date_constructor_never_stores_wrapped_value", nonneg /\ ~FitsInt64(ms) /\ e.fn # "DateFromTime", ~e.r.ok, cls),
            R("C12", "date_rejects_negative", ~nonneg /\ e.fn # "DateFromTime", ~e.r.ok, cls),
            \* values that do not fit a non-negative 63-bit millisecond count are refused, never wrapped
            R("C12", "date_rejects_out_of_domain", nonneg /\ ~FitsInt64(ms) /\ e.fn # "DateFromTime", ~e.r.ok, cls) >>
@@ -76,6 +79,7 @@ JPrims(e) ==
         LET small == FitsInt64(e["in"])
             t == DateToTime(e["in"]) IN
         << R("C12", "date_time_exact", small, ~e.r.secneg /\ EqBE(e.r.sec, t[1]) /\ e.r.ns = t[2], "Time"),
+           R("C15", "milliseconds_to_time_exact", small, ~e.r.secneg /\ EqBE(e.r.sec, t[1]) /\ e.r.ns = t[2], "Time"),
            R("C12", "date_int_exact", small, e.r.int = e["in"], "Int"),
            R("C12", "date_bytes", TRUE, e.r.bytes = e["in"] /\ e.r.iszero = AllZero(e["in"]), "Bytes") >>
     [] e.op = "NewStr" ->
